@@ -107,7 +107,7 @@ def to_swc(
             if not c.isspace():
                 yield f"# {c.lstrip()}\n"
             else:
-                yield "#"
+                yield "#\n"
 
     names = get_names(names)
     cols = names.cols() + (list(extra_cols) if extra_cols is not None else [])
